@@ -176,6 +176,8 @@ def run(ctx):
         "2*dblError directional error of intersectionExact (comment in intersectionExact), minUpdateDistanceMaxError (edge_distances.go) "
         "for the distance of the result to each edge, points unit to within 2*dblEpsilon (comment in interiorDist) for the hemisphere test",
         "the on-edge relation is not demanded for edges antipodal to within 1e-2 rad (documented limitation of minUpdateDistanceMaxError)",
+        "all tolerances are absolute (radians / squared chord), none is relative to an edge length; the distance of the result to an edge "
+        "shorter than 1e-140 rad is measured to the nearer endpoint because UpdateMinDistance squares |a x b|, which underflows there",
         "collinear float inputs lie on circles that stay exactly planar in float64 (z = 0, x = y and their coordinate permutations); "
         "which endpoints lie inside the other edge is known from the integer slots of the construction",
     ]
